@@ -88,26 +88,39 @@ func (w *websocket) message() {
 			return
 		}
 
+		// the connection's read limit counts bytes on the wire; a compressed message is
+		// bounded here by what it inflates to
+		limit := w.socket.ReadLimit()
+		if limit > 0 {
+			message = io.LimitReader(message, limit+1)
+		}
+
 		switch mt {
 		case ws.BinaryMessage:
 			read := types.NewBytesBuffer(nil)
-			if _, err := read.ReadFrom(message); err != nil {
+			if n, err := read.ReadFrom(message); err != nil {
 				if errors.Is(err, net.ErrClosed) {
 					w.socket.Emit("close")
 				} else {
 					w.socket.Emit("error", err)
 				}
+			} else if limit > 0 && n > limit {
+				w.socket.Emit("error", ws.ErrReadLimit)
+				return
 			} else {
 				w.onMessage(read)
 			}
 		case ws.TextMessage:
 			read := types.NewStringBuffer(nil)
-			if _, err := read.ReadFrom(message); err != nil {
+			if n, err := read.ReadFrom(message); err != nil {
 				if errors.Is(err, net.ErrClosed) {
 					w.socket.Emit("close")
 				} else {
 					w.socket.Emit("error", err)
 				}
+			} else if limit > 0 && n > limit {
+				w.socket.Emit("error", ws.ErrReadLimit)
+				return
 			} else {
 				w.onMessage(read)
 			}
